@@ -564,6 +564,8 @@ def err_class(exc) -> str:
         return "cannotAddCalls"
     if "can not be abstract" in msg:
         return "absGeneric"
+    if isinstance(exc, ValueError) and "reported while parsing" in msg:
+        return "reported"      # candidate repair fixes/C20-skip-reported-files.diff
     if isinstance(exc, ValueError) and msg.startswith("ERROR in file"):
         return "printError"
     if isinstance(exc, (ValueError, RuntimeError)) and ("Can not start a new line" in msg or "documentation lines" in msg
@@ -810,10 +812,10 @@ def run(tier: str, seed: int, replay: str | None = None) -> int:
     rng = random.Random(seed * 104729 + 20)
     drv = Driver()
     quick = tier == "quick"
-    n_sets = 10 if quick else 60
+    n_sets = 24 if quick else 100
     per_base = 60 if quick else 200
-    n_random = 300 if quick else 3000
-    n_e2e = 8 if quick else 40
+    n_random = 720 if quick else 5000
+    n_e2e = 12 if quick else 60
     t_start = time.time()
 
     ev_rows, bad_rows = row_stream(ford, drv, rep)
@@ -832,6 +834,9 @@ def run(tier: str, seed: int, replay: str | None = None) -> int:
 
     with common.scratch_dir() as root:
         real = Real(ford, root)
+        # which variant of the model does this tree correspond to?  (DESIGN 2.1: repaired first)
+        probe = real.run([("bad.f90", "contains\n")])
+        repaired = probe.get("escaped") is None and "bad.f90" not in probe.get("files", ["bad.f90"])
         # ------------------------------------------------------------ build all cases
         cases = []
         for gi in range(n_sets):
@@ -854,6 +859,13 @@ def run(tier: str, seed: int, replay: str | None = None) -> int:
                 bads.append({"form": "reader", "how": "reader-error",
                              "text": text_of(base[:k]) + amp + "\n" + text_of(base[k:])})
             bads.append(make_bad(rng, "valid-extra", base))
+            # whole extra units appended / prepended (a second main program makes the file invalid)
+            gq = Gen(rng, f"b{gi}q")
+            p1, p2 = gq.program(), gq.program()
+            noprog = [s_ for s_ in Gen(rng, f"b{gi}n").module() + Gen(rng, f"b{gi}o").proc()]
+            bads.append(make_bad(rng, "two-programs", noprog + p1 + p2))
+            bads.append(make_bad(rng, "two-programs", p1 + noprog + p2))
+            bads.append(make_bad(rng, "two-programs", p1 + p2 + gq.module()))
             for bi, bad in enumerate(bads):
                 pos = rng.choice(["first", "middle", "last"]) if ngood > 1 else rng.choice(["first", "last"])
                 k = {"first": 0, "last": ngood, "middle": rng.randint(1, max(1, ngood - 1))}[pos]
@@ -874,7 +886,7 @@ def run(tier: str, seed: int, replay: str | None = None) -> int:
             for n_, (k2, b2) in enumerate(c["extra"]):
                 files.insert(min(k2, len(files)), (f"bad{n_ + 2}.f90", b2))
             c["files"] = files
-            cfg = [b(c["dbg"]), b(c["force"]), "0"]
+            cfg = [b(c["dbg"]), b(c["force"]), b(repaired)]
             proj = ["c20.project"] + cfg
             for name, src in files:
                 proj += src_fields(name, src) + ["|"]
@@ -883,6 +895,14 @@ def run(tier: str, seed: int, replay: str | None = None) -> int:
                 if src["form"] == "stmts":
                     reqs.append(["c20.parse"] + cfg + stmt_fields(src["stmts"]))
         resp = drv.batch(reqs)
+        # inputs of kind R are justified by the reader model of C02: it must raise on these lines
+        rcases = [c for c in cases if c["bad"]["form"] == "reader"]
+        rresp = drv.batch([["read", "!", ">", "*", "|"] + c["bad"]["text"].splitlines() for c in rcases])
+        for c, r in zip(rcases, rresp):
+            if r[0] != "err":
+                n_corr_bad += 1
+                rep.tie_broken("correspondence reader: the reader model (C02 readAll) does not raise on a file generated as a reader error",
+                               {"stream": "reader", "lines": c["bad"]["text"].splitlines(), "model": r[:3]})
         ri = 0
         for c in cases:
             c["m_proj"] = resp[ri]
@@ -909,6 +929,7 @@ def run(tier: str, seed: int, replay: str | None = None) -> int:
             lrng = random.Random(seed * 31 + ci)
             files = [(name, texts[name] if name in texts else src_text(src, lrng)) for name, src in c["files"]]
             obs = real.run(files, c["dbg"], c["force"])
+            c["real_skipped"] = (not obs["hang"] and obs["escaped"] is None and "bad.f90" not in obs.get("files", ["bad.f90"]))
             n_cases += 1
             bad = c["bad"]
             bump(hist, bad["how"].split("@")[0].split(":")[0])
@@ -1055,7 +1076,8 @@ def run(tier: str, seed: int, replay: str | None = None) -> int:
         report_histogram=dict(sorted(rep_hist.items())),
         corruptions_still_valid=n_valid_bad,
         e2e_runs=n_e2e_done,
-        variant="asIs (print_error under dbg returns; reported files stay registered)",
+        variant=("repaired (a file with print_error reports is rejected when its constructor returns)" if repaired
+                 else "asIs (print_error under dbg returns; reported files stay registered)"),
     )
     rep.assumptions += [
         "statements are rendered one per line from 33 statement kinds; the recognisers themselves (CPython re) are on the implementation side, matchRow is validated on the rows stream",
@@ -1085,12 +1107,17 @@ def e2e_stream(rep, rng, cases, baselines, n, seed):
     ford = common.import_ford()
     import ford.fortran_project as fp
 
-    picked = [c for c in cases if c["dbg"] and c["m_file"]["bad.f90"]["status"] == "skipped" and not c["extra"]]
+    picked = [c for c in cases if c["dbg"] and c.get("real_skipped") and not c["extra"]]
     rng.shuffle(picked)
     done = fails = 0
     base_digest = {}
     orig_find = fp.find_all_files
-    for c in picked[: n]:
+    unusable = set()   # good sets on which the complete pipeline fails by itself (e.g. a submodule of an absent module)
+    for c in picked:
+        if done >= n:
+            break
+        if c["gi"] in unusable:
+            continue
         texts, _ = baselines[(c["gi"], True, False)]
         lrng = random.Random(seed * 977 + done)
         with_bad = [(name, texts[name] if name in texts else src_text(src, lrng)) for name, src in c["files"]]
@@ -1122,6 +1149,11 @@ def e2e_stream(rep, rng, cases, baselines, n, seed):
                     digests.append(site_digest(res["out"], d))
             if variant is without:
                 base_digest[c["gi"]] = digests[-1]
+                if "<run>" in digests[-1]:
+                    unusable.add(c["gi"])
+                    break
+        if c["gi"] in unusable:
+            continue
         done += 1
         if digests[0] != digests[1]:
             fails += 1
@@ -1130,4 +1162,5 @@ def e2e_stream(rep, rng, cases, baselines, n, seed):
                                "files": [{"name": n_, "text": t if isinstance(t, str) else repr(t)} for n_, t in with_bad],
                                "why": [f"O1: generated site differs from the site without the rejected file in {diff[:8]}"],
                                "run": {k: v for k, v in digests[1].items() if k == "<run>"}}, None)
+    rep.coverage["e2e_good_sets_unusable"] = len(unusable)
     return done, fails
